@@ -124,6 +124,8 @@ fn gen_form(rng: &mut Rng, literals_with_parens: bool, defined: &mut Vec<String>
                 "'()", "(< 2 1)", "\"a string\"", "#\\a", "(vector)", "(cdr '(1))", "(vector 1 (vector 2) '(3))", "'sym",
                 "car", "(lambda (x) x)", "(/ 6 4)", "2.5", "(* 1.0 3)", "(cons 1 2)", "(list)", "#t", "(if #f #f)", "'(1 . 2)",
                 "(list 1 (list 2 (list 3 '())) \"s\" #\\b)",
+                // values that print as several lines
+                "\"two\\nlines\"", "(list \"a\\nb\" 1)",
             ]))
             .to_string(),
             "value-kinds",
